@@ -30,6 +30,7 @@ def strategy(tier, unit):
 
 def _check_images(ctx, D, o, nx, ny, tag):
     img = np.arange(nx * ny).reshape(nx, ny) + 1
+    img.setflags(write=False)          # the transformations must not write into the caller's image
     t = D.trans_orientation(img, *o)
     if not np.array_equal(D.trans_orientation(t, *o, 'inverse'), img):
         ctx.fail("trans_orientation/inverse-after-forward", "%s o=%r shape %dx%d" % (tag, o, nx, ny))
